@@ -776,6 +776,95 @@ pub fn run_c09(ctx: &mut Ctx, _known: &Known) {
             }
         }
     }
+    // (5) bare numbers written in the rule (a YAML number, also as list members), over the whole
+    //     unsigned range: true only when the field equals the number that was written
+    {
+        let bare: Vec<Yaml> = vec![
+            Yaml::Number(0u64.into()), Yaml::Number(5u64.into()), Yaml::Number((-1i64).into()), Yaml::Number(i64::MIN.into()),
+            Yaml::Number((i64::MAX as u64).into()), Yaml::Number(9223372036854775808u64.into()), Yaml::Number(18446744073709551614u64.into()), Yaml::Number(u64::MAX.into()),
+            Yaml::Number(2.5f64.into()), Yaml::Number(1e300f64.into()),
+        ];
+        for b in &bare {
+            for (shape, v) in [("scalar", b.clone()), ("list member", Yaml::Sequence(vec![b.clone(), Yaml::Number(77u64.into())]))] {
+                for key in ["f", "int(f)"] {
+                    let cs = case(vec![("A".into(), map1(key, v.clone())), ("condition".into(), ys("A"))], docs.clone(), masks.clone());
+                    let (ex, parsed) = run_rule_case(ctx, &cs, false);
+                    let ry = rule_yaml(&cs);
+                    let p = match parsed {
+                        Some(p) if p.load == "ok" => p,
+                        _ => continue,
+                    };
+                    let res = tri_of(&p, 0);
+                    let cv = field_num(b).unwrap();
+                    for (j, fv) in field_vals.iter().enumerate() {
+                        let got = res[j] == "T";
+                        ctx.nontrivial.insert(hash_str(&format!("bare{}{:?}{:?}{}", key, b, fv, shape)));
+                        if key != "f" {
+                            // under int() the documented conversions apply; only wrap-around is judged here
+                            if got {
+                                if let Some(NumV::I(x)) = field_num(fv) {
+                                    if let NumV::I(c) = cv {
+                                        if x != c && x != 77 {
+                                            ctx.violation("oracle", &format!("`{}: {:?}` ({}) is true for f = {:?}: a different integer", key, b, shape, fv), &ex, &ry, true);
+                                        }
+                                    }
+                                }
+                            }
+                            continue;
+                        }
+                        match field_num(fv) {
+                            Some(fvn) => {
+                                let eq = cmp_exact(&fvn, &cv) == Some(std::cmp::Ordering::Equal)
+                                    || (shape == "list member" && cmp_exact(&fvn, &NumV::I(77)) == Some(std::cmp::Ordering::Equal));
+                                if got && !eq {
+                                    ctx.violation("oracle", &format!("`f: {:?}` ({}) is true for f = {:?} although the two numbers differ", b, shape, fv), &ex, &ry, true);
+                                }
+                            }
+                            None => {
+                                if got {
+                                    ctx.violation("oracle", &format!("`f: {:?}` ({}) is true for the non-numeric value {:?}", b, shape, fv), &ex, &ry, true);
+                                }
+                            }
+                        }
+                    }
+                }
+            }
+        }
+    }
+    // (6) the numeric value of a field does not depend on the document representation: the same
+    //     documents as serde_json values give the verdicts of the YAML mappings
+    {
+        let rules: Vec<(String, Yaml)> = vec![
+            ("f: '>1'".into(), map1("f", ys(">1"))), ("f: '>=9223372036854775808'".into(), map1("f", ys(">=9223372036854775807"))),
+            ("f: '=1'".into(), map1("f", ys("=1"))), ("f: '<1'".into(), map1("f", ys("<1"))), ("f: '<=0.5'".into(), map1("f", ys("<=0.5"))),
+            ("f: '>2.5'".into(), map1("f", ys(">2.5"))), ("int(f): 5".into(), map1("int(f)", Yaml::Number(5u64.into()))), ("flt(f): '>=0.5'".into(), map1("flt(f)", ys(">=0.5"))),
+            ("f: 18446744073709551615".into(), map1("f", Yaml::Number(u64::MAX.into()))), ("str(f): '18446744073709551615'".into(), map1("str(f)", ys("'18446744073709551615'"))),
+        ];
+        for (name, idv) in rules {
+            let text = serde_yaml::to_string(&crate::implside::rule_value(&case(vec![("A".into(), idv.clone()), ("condition".into(), ys("A"))], vec![], vec![0]))).unwrap_or_default();
+            let rule = match tau_engine::Rule::from_str(&text) {
+                Ok(r) => r,
+                Err(_) => continue,
+            };
+            let opt = rule.clone().optimise(crate::implside::opts(15));
+            for (j, d) in docs.iter().enumerate() {
+                let (m, js) = match (d.as_mapping(), crate::suites2::json_of_yaml(d)) {
+                    (Some(m), Some(js)) => (m, js),
+                    _ => continue, // NaN / infinities have no JSON form
+                };
+                ctx.evaluations += 1;
+                ctx.nontrivial.insert(hash_str(&format!("json{}{}", name, j)));
+                for (label, r) in [("plain", &rule), ("optimised", &opt)] {
+                    let a = r.matches(m);
+                    let b = r.matches(&js);
+                    if a != b {
+                        let dummy = ctx.exchange("tok s:");
+                        ctx.violation("oracle", &format!("{} rule `{}`: document {} gives {} as a YAML mapping and {} as a serde_json value", label, name, serde_yaml::to_string(d).unwrap_or_default().replace('\n', " "), a, b), &dummy, &text, true);
+                    }
+                }
+            }
+        }
+    }
     // (4) the same casts inside shapes the optimiser rewrites (or-of-and sharing a field: matrix rows)
     let cast_vals: Vec<Yaml> = vec![ys("443"), ys("80"), ys("x"), Yaml::Number(443u64.into()), Yaml::Number(443.0f64.into()), Yaml::Number(442.6f64.into()), Yaml::Bool(true), Yaml::Number(1u64.into()), ys("0.75"), Yaml::Number(0.75f64.into()), Yaml::Null];
     let mut docs4: Vec<Yaml> = vec![];
